@@ -219,7 +219,7 @@ def run_check(prop, tier, seed, workdir, t_start, jobs):
     # 3. audit
     audit_res, obligations, discharged = {}, 0, 0
     if build_ok:
-        audit_res, aout, arc = common.audit(prop, workdir)
+        audit_res, aout, arc = common.audit(prop, workdir, getattr(mod, 'AUDIT_PROPS', None))
         required = list(getattr(mod, 'REQUIRED', []))
         for n in required:
             if n not in audit_res:
